@@ -363,3 +363,56 @@ Example C07_globals_pattern_nonvacuous :
   = [Some (GVal (-1)); None; Some (GVal 1); Some (GVal 2); None; Some (GVal 60); None; Some (GVal 7);
      None; None; Some (GVal 3); Some (GVal 1); Some (GVal 2); Some (GVal (-1))].
 Proof. vm_compute. reflexivity. Qed.
+
+(** * Tracks written in string shorthand (model: Sched/NotationTracks.v = Notation/Parser.v + Notation/PSeq.v + Sched/Model.v;
+      lemmas Sched/NotationTracksProofs.v) *)
+(* Every str value of an event dictionary goes through Pattern.pattern -> parse_notation, which BUILDS a new tree of PSequence
+   objects at every call.  Tracks built from equal strings are therefore built from separate, equal objects. *)
+From Isobar Require Import Notation.Lexer Notation.Parser Notation.PSeq Sched.NotationTracks Sched.NotationTracksProofs.
+
+(* the objects of a process do not move each other: after ANY program of "build an object from a string" / "ask object o" steps,
+   object o is what it was, advanced by the number of times IT was asked; the value it yields next is the value of that index of
+   its own sequence (C20_cycle says which) *)
+Theorem C07_notation_objects_independent : forall uw p st o ob, nth_error st o = Some ob ->
+  nth_error (nstate uw st p) o = Some (after (asks o p) ob)
+  /\ (live ob = true ->
+      nth (length p) (nrun uw st (p ++ [NNext o])) NNoObj = match kth (asks o p) ob with Some v => NVal v | None => NStop end).
+Proof. intros uw p st o ob F. split; [apply object_after_program; exact F|intros L; apply value_after_program; assumption]. Qed.
+(* an object built after any program - a later schedule(), a new timeline in the same process - starts at the beginning of its
+   string's sequence; two objects built from the same string yield the same values ask by ask, however interleaved *)
+Theorem C07_notation_fresh : forall uw p s st ob, object_of uw s = Ok ob -> nstate uw st (p ++ [NNew s]) = nstate uw st p ++ [ob].
+Proof. exact new_object_is_fresh. Qed.
+Theorem C07_notation_same_string : forall uw s ob st o1 o2 p1 p2,
+  object_of uw s = Ok ob -> live ob = true -> nth_error st o1 = Some ob -> nth_error st o2 = Some ob -> asks o1 p1 = asks o2 p2 ->
+  nth (length p1) (nrun uw st (p1 ++ [NNext o1])) NNoObj = nth (length p2) (nrun uw st (p2 ++ [NNext o2])) NNoObj.
+Proof. exact same_string_same_values. Qed.
+
+(* the event stream of a track scheduled from {note: sn, duration: sd, amplitude: sa, gate, channel} is a function of its own
+   strings ([notation_stream]) and stays on its channel; so THE MERGE THEOREM applies: two tracks written with the same three
+   strings on different channels produce together, tick by tick, exactly what each produces alone *)
+Theorem C07_notation_stream_own_channel : forall uw U chan gnum gden N sn sd sa (qc : Z -> bool) qb, qc chan = true ->
+  stream_ok qc qb (stream_or_empty (notation_stream uw U chan gnum gden N sn sd sa)) = true.
+Proof. exact notation_stream_ok. Qed.
+Theorem C07_notation_merge : forall uw U gnum gden N sn sd sa chA chB qA dA cA qB dB cB rA rB cfg n,
+  chA <> chB -> uncoupled cfg = true ->
+  all_ticks_ok cfg tl0 (two_tracks uw U gnum gden N sn sd sa chA chB qA dA cA qB dB cB rA rB n) = true ->
+  let A := stream_or_empty (notation_stream uw U chA gnum gden N sn sd sa) in
+  let B := stream_or_empty (notation_stream uw U chB gnum gden N sn sd sa) in
+  let joint := tick_calls cfg tl0 (two_tracks uw U gnum gden N sn sd sa chA chB qA dA cA qB dB cB rA rB n) in
+  tick_calls cfg (tl_at 0) (OSchedule A qA dA cA rA None true :: repeat OTick n) = map (filter (call_ok (fun c => c =? chA) (fun _ => false))) joint
+  /\ tick_calls cfg (tl_at 1) (OSchedule B qB dB cB rB None true :: repeat OTick n) = map (filter (call_ok (fun c => c =? chB) (fun _ => false))) joint.
+Proof. intros. apply same_strings_merge; assumption. Qed.
+
+(* non-vacuity: '60 [62 64] 67' (note), '1' (duration, 1 beat = 2 units), '64' (amplitude) on channels 0 and 1, the second track
+   delayed by one tick: each plays 60 62 67 60 64 67 ... - the nested group gives one element per cycle, on BOTH tracks *)
+Definition nt_sn : str := [54;48;32;91;54;50;32;54;52;93;32;54;55].
+Definition nt_uw (c : Z) : bool := false.
+Definition nt_cfg : config := mkConfig 1 [] 0 0 false false None 8.
+Definition on_notes (l : list call) : list (Z * Z) := flat_map (fun c => match c with CNoteOn n _ ch => [(n, ch)] | _ => [] end) l.
+Example C07_notation_nonvacuous :
+  uncoupled nt_cfg = true
+  /\ all_ticks_ok nt_cfg tl0 (two_tracks nt_uw 2 1 2 8 nt_sn [49] [54;52] 0 1 None None None None (Some 1) None true true 12) = true
+  /\ map on_notes (tick_calls nt_cfg tl0 (two_tracks nt_uw 2 1 2 8 nt_sn [49] [54;52] 0 1 None None None None (Some 1) None true true 12))
+     = [ [(60,0)]; [(60,1)]; [(62,0)]; [(62,1)]; [(67,0)]; [(67,1)]; [(60,0)]; [(60,1)]; [(64,0)]; [(64,1)]; [(67,0)]; [(67,1)] ]
+  /\ outputs 6 (match parse nt_uw nt_sn with Ok g => g | _ => [] end) = [VInt 60; VInt 62; VInt 67; VInt 60; VInt 64; VInt 67].
+Proof. vm_compute. repeat split. Qed.
